@@ -542,5 +542,8 @@ func Run(cfg *Config, edgesFile, walksFile string, maxSamples int) (*Report, err
 			return nil, err
 		}
 	}
+	for _, m := range ReopenOverlap() {
+		rp.mismatch(m)
+	}
 	return rp.rep, nil
 }
